@@ -12,7 +12,7 @@ import ast
 from typing import Any, Dict, List, Optional, Set, Tuple
 
 from ..config_graph import ConfigGraph
-from ..core import AnalysisError, Loc, Report, Source, norm
+from ..core import IdiomNotRecognised, AnalysisError, Loc, Report, Source, norm
 from ..handlers import HandlerFacts, concrete_handlers, parent_map
 from ..inifront import IniConfig, Obj, load_all
 from ..pools import check_factor_files_symmetric, check_factor_taggers
@@ -135,6 +135,60 @@ def check_families(prog: Program, cfgs: List[IniConfig], rep: Report) -> None:
     rep.expect_min("R1.3-variants-agree-on-the-model", 60)
 
 
+def check_handler_copies(prog: Program, rep: Report) -> None:
+    """
+    R1.5: the taggers obtain their event handlers by deep-copying one initialised instance; every copy computes candidates of its
+    own.  A custom `__deepcopy__` / `__copy__` that lets the copies SHARE an object is only harmless if that object is never
+    written after its construction: an object with per-call state (a bounding potential that remembers the rate of its last
+    displacement call) shared between handlers confirms one handler's event with another handler's rate.
+    """
+    def stateful(ci) -> Optional[str]:
+        for c in [ci] + prog.subclasses(ci.name):
+            for name, m in c.methods.items():
+                if name in ("__init__", "initialize", "__setstate__", "__getstate__"):
+                    continue
+                for a in ast.walk(m):
+                    tgts = a.targets if isinstance(a, ast.Assign) else [a.target] if isinstance(a, ast.AugAssign) else []
+                    for t in tgts:
+                        base = t
+                        while isinstance(base, ast.Subscript):
+                            base = base.value
+                        if self_attr(base):
+                            return f"{c.name}.{name} writes self.{self_attr(base)}"
+        return None
+    for ci in prog.classes:
+        if not ci.file.startswith(("jellyfysh/event_handler/", "jellyfysh/potential/", "jellyfysh/lifting/", "jellyfysh/estimator/")):
+            continue
+        for mname in ("__deepcopy__", "__copy__"):
+            m = ci.methods.get(mname)
+            if m is None:
+                continue
+            shared = []
+            for a in ast.walk(m):
+                if isinstance(a, ast.Assign) and len(a.targets) == 1 and self_attr(a.value):
+                    t = a.targets[0]
+                    # memo[id(self.x)] = self.x   /   new.x = self.x
+                    if isinstance(t, ast.Subscript) or (isinstance(t, ast.Attribute) and not self_attr(t)):
+                        shared.append((self_attr(a.value), a))
+                if isinstance(a, ast.Call) and isinstance(a.func, ast.Name) and a.func.id == "setattr" and len(a.args) == 3 and self_attr(a.args[2]):
+                    shared.append((self_attr(a.args[2]), a))
+            for attr, node in shared:
+                target = None
+                for c in prog.mro(ci):
+                    init = c.methods.get("__init__")
+                    for st in ast.walk(init) if init is not None else []:
+                        if isinstance(st, ast.Assign) and any(self_attr(t) == attr for t in st.targets) and isinstance(st.value, ast.Name):
+                            ann = [x.annotation for x in init.args.args + init.args.kwonlyargs if x.arg == st.value.id and x.annotation is not None]
+                            if ann:
+                                from ..pyfront import dotted
+                                target = prog.resolve_class(c.module, (dotted(ann[0]) or "").split(".")[-1]) or target
+                why = stateful(target) if target is not None else None
+                rep.ob("R1.5-handler-copies-independent", None if target is None else why is None,
+                       Loc(ci.file, node.lineno, f"{ci.name}.{mname}"), node,
+                       f"the copies of {ci.name} share `self.{attr}`" + (f" ({target.name}), which keeps state between calls: {why}" if why else
+                                                                          " whose class could not be resolved"))
+
+
 def analyse(src: Source) -> List[Report]:
     rep = Report(ID, src)
     rep.explain(
@@ -160,12 +214,18 @@ def analyse(src: Source) -> List[Report]:
     rep.unit("config_files", len(cfgs))
     rep.expect_min("R1.2-mirror-closed", 8)
     rep.expect_min("R1.2-label-resolves", 35)
+    check_handler_copies(prog, rep)
     reports = [rep]
     # the property is the top-level one: rates (C03), thinning (C04), lifting (C05) and the order in which the scheduler hands out
     # the candidate events (C06) are all necessary for it
-    from . import c03, c04, c05, c06
-    for mod in (c03, c04, c05, c06):
-        for r in mod.analyse(src):
+    from . import c03, c04, c05, c06, c18
+    for mod in (c03, c04, c05, c06, c18):      # ... and so is the alias sampling of the cell-veto proposals (C18)
+        try:
+            included = mod.analyse(src)
+        except IdiomNotRecognised as e_:
+            rep.ob("R1.0-included-rule-set", None, Loc("jellyfysh", 0, mod.__name__.split(".")[-1]), mod.__name__.split(".")[-1], f"idiom not recognised: {e_}")
+            continue
+        for r in included:
             r.prop = ID
             for f in r.findings:
                 f.prop = ID
